@@ -191,3 +191,60 @@ silent("c01-burn-early-return", "C01",
 	}
 	{
 		k.Logger(ctx).Debug("Coins burned", "coins", toSend)"""))
+
+# ---------------- C05 ----------------
+SPLIT = "x/cfevesting/keeper/msg_server_split_vesting.go"
+fire("c05-persist-before-transfer", "C05", ["C05.pair"],
+     (VEST, """		err = k.bank.SendCoinsFromModuleToAccount(ctx, types.ModuleName, ownerAddress, coinsToSend)
+		if err != nil {
+			k.Logger(ctx).Error("withdraw all available sending coins to vesting account error", "owner", owner, "error", err.Error())
+			return withdrawn, sdkerrors.Wrap(types.ErrSendCoins, sdkerrors.Wrapf(err, "withdraw all available - send coins to vesting account error: owner: %s", owner).Error())
+		}
+	}
+""", """		err = k.bank.SendCoinsFromModuleToAccount(ctx, types.ModuleName, ownerAddress, coinsToSend)
+		if err != nil {
+			k.Logger(ctx).Error("withdraw all available sending coins to vesting account error", "owner", owner, "error", err.Error())
+		}
+	}
+"""))
+fire("c05-transfer-less", "C05", ["C05.pair"],
+     (VEST, "		coinToSend := sdk.NewCoin(denom, toWithdraw)\n		coinsToSend := sdk.NewCoins(coinToSend)\n		err = k.bank.SendCoinsFromModuleToAccount", "		coinToSend := sdk.NewCoin(denom, toWithdraw.SubRaw(1))\n		coinsToSend := sdk.NewCoins(coinToSend)\n		err = k.bank.SendCoinsFromModuleToAccount"))
+fire("c05-pool-create-transfer-other", "C05", ["C05.pair"],
+     (VEST, "	coinToSend := sdk.NewCoin(denom, amount)\n	coinsToSend := sdk.NewCoins(coinToSend)\n	err := k.bank.SendCoinsFromAccountToModule", "	coinToSend := sdk.NewCoin(denom, balance.Amount)\n	coinsToSend := sdk.NewCoins(coinToSend)\n	err := k.bank.SendCoinsFromAccountToModule"))
+fire("c05-sent-without-transfer", "C05", ["C05.pair"],
+     (VEST, "	coinsToSend := sdk.NewCoins(coinToSend)\n	err = k.bank.SendCoinsFromModuleToAccount(ctx, types.ModuleName, toAddress, coinsToSend)\n", "	coinsToSend := sdk.NewCoins(coinToSend)\n	if !free.IsZero() {\n		err = k.bank.SendCoins(ctx, toAddress, toAddress, coinsToSend)\n	}\n"))
+fire("c05-zero-withdrawn", "C05", ["C05.pair"],
+     (VEST, "	current := ctx.BlockTime()\n	toWithdraw := sdk.ZeroInt()", "	if len(accVestingPools.VestingPools) > 7 {\n		accVestingPools.VestingPools[0].Withdrawn = sdk.ZeroInt()\n	}\n	current := ctx.BlockTime()\n	toWithdraw := sdk.ZeroInt()"))
+fire("c05-send-persist-on-error", "C05", ["C05.pair"],
+     (VEST, "	if err == nil {\n		k.SetAccountVestingPools(ctx, accVestingPools)\n		k.AppendVestingAccountTrace", "	k.SetAccountVestingPools(ctx, accVestingPools)\n	if err == nil {\n		k.AppendVestingAccountTrace"))
+fire("c05-avail-guard-deleted", "C05", ["C05.avail"],
+     (VEST, "	if available.LT(amount) {", "	if available.IsNegative() {"))
+fire("c05-avail-lte", "C05", ["C05.avail"],
+     (VEST, "	if available.LT(amount) {", "	if available.LTE(amount) {"))
+fire("c05-avail-initially-locked", "C05", ["C05.avail"],
+     (VEST, "	available := vestingPool.GetCurrentlyLocked()\n\n	if available.LT(amount) {", "	available := vestingPool.GetCurrentlyLocked()\n\n	if vestingPool.InitiallyLocked.LT(amount) {"))
+fire("c05-negative-amount-accepted", "C05", ["C05.avail"],
+     ("x/cfevesting/types/message_send_to_vesting_account.go", """	if amount.IsNegative() {
+		return nil, nil, errors.Wrap(ErrAmount, "send to new vesting account - amount is <= 0")
+	}
+""", ""))
+fire("c05-withdrawn-other-source", "C05", ["C05.avail"],
+     (VEST, "		vestingPool.Withdrawn = vestingPool.Withdrawn.Add(withdrawable)\n		toWithdraw = toWithdraw.Add(withdrawable)", "		withdrawable = vestingPool.GetCurrentlyLocked()\n		vestingPool.Withdrawn = vestingPool.Withdrawn.Add(withdrawable)\n		toWithdraw = toWithdraw.Add(withdrawable)"))
+fire("c05-errprop-split-send-ignored", "C05", ["C05.errprop"],
+     (SPLIT, "	if err = k.bank.SendCoins(ctx, from, toAddress, amount); err != nil {\n		return sdkerrors.Wrap(err, \"split vesting coins\")\n	}", "	_ = k.bank.SendCoins(ctx, from, toAddress, amount)"))
+fire("c05-errprop-logged-only", "C05", ["C05.errprop"],
+     (SPLIT, "	if err = k.bank.SendCoins(ctx, from, toAddress, amount); err != nil {\n		return sdkerrors.Wrap(err, \"split vesting coins\")\n	}", "	if err = k.bank.SendCoins(ctx, from, toAddress, amount); err != nil {\n		k.Logger(ctx).Error(err.Error())\n	}"))
+fire("c05-gen-validation-not-fatal", "C05", ["C05.gen"],
+     ("x/cfevesting/genesis.go", "	if err != nil {\n		panic(err)\n	}\n	// Set all the vestingAccount", "	if err != nil {\n		k.Logger(ctx).Error(err.Error())\n	}\n	// Set all the vestingAccount"))
+fire("c05-gen-compare-dropped", "C05", ["C05.gen"],
+     ("x/cfevesting/genesis.go", "	if !vestingPoolsAmount.Equal(modBalance.Amount) {", "	if vestingPoolsAmount.IsNegative() {"))
+fire("c05-delete-reachable", "C05", ["C05.writers"],
+     (VEST, "	if len(accVestingPools.VestingPools) == 0 {\n		k.Logger(ctx).Debug(\"withdraw all available no vesting pools in array error\", \"owner\", owner)", "	if len(accVestingPools.VestingPools) == 0 {\n		k.DeleteAccountVestingPools(ctx, owner)\n		k.Logger(ctx).Debug(\"withdraw all available no vesting pools in array error\", \"owner\", owner)"))
+fire("c05-query-writes-ledger", "C05", ["C05.writers"],
+     ("x/cfevesting/keeper/grpc_query_vesting_pools.go", "		current := vesting.GetCurrentlyLocked()", "		vesting.Withdrawn = vesting.Withdrawn.Add(withdrawable)\n		current := vesting.GetCurrentlyLocked()"))
+silent("c05-avail-gt-form", "C05",
+       (VEST, "	if available.LT(amount) {", "	if amount.GT(available) {"))
+silent("c05-errors-wrap-other-pkg", "C05",
+       (SPLIT, "	if err = k.bank.SendCoins(ctx, from, toAddress, amount); err != nil {\n		return sdkerrors.Wrap(err, \"split vesting coins\")\n	}", "	if err = k.bank.SendCoins(ctx, from, toAddress, amount); err != nil {\n		return sdkerrors.Wrapf(err, \"split vesting coins %s\", from)\n	}"))
+silent("c05-withdraw-early-return", "C05",
+       (VEST, "	if toWithdraw.GT(sdk.ZeroInt()) {\n		coinToSend := sdk.NewCoin(denom, toWithdraw)", "	if toWithdraw.IsPositive() {\n		coinToSend := sdk.NewCoin(denom, toWithdraw)"))
